@@ -166,8 +166,13 @@ func VerifCacheDiff(args []string) {
 	s2.MaxDepth = 80
 	r2 := verifRunSession(s2, o2, vals, args)
 	verifCacheOff = false
+	// the label names the session (its last 140 bytes: the menu sessions share a long first input)
+	at := strings.ReplaceAll(strings.Join(args, " | "), "\n", " ")
+	if len(at) > 140 {
+		at = "..." + at[len(at)-140:]
+	}
 	for i := range args {
-		verifSameOutcome(r1[i], r2[i], "memoization")
+		verifSameOutcome(r1[i], r2[i], "memoization#"+at)
 	}
 }
 
